@@ -20,8 +20,8 @@ META = {
             "string, character and comparison builtins of the Store model, on every well-formed store and every argument "
             "list, the outcome is never `panic` (one lemma per builtin); list walkers terminate within a fuel bound that is a "
             "function of the heap size on every (also circular) store where that is true (list? and, since its repair, the "
-            "prelude's length), and the negation is proved on a circular witness where it is not (equal?; the pinned list? "
-            "and the pinned length); rendering an error never panics; after a failed evaluation the machine is "
+            "prelude's length), equal? (since its repair dfd9e81) never exhausts the fuel equalFuel(s) on any store, and the "
+            "negation is proved on a circular witness for the pinned list?, the pinned length and the pinned equal?; rendering an error never panics; after a failed evaluation the machine is "
             "quiescent (re-exported from C07). The outcome CLASS of every palette call is compared with the model wherever a "
             "model exists (Store, Num); the other builtins are covered by the exploration alone.",
     "note": "Closed theorems (all inputs): T06.1 scan/parse/highlight totality (from C11/C20), T06.2 no-panic lemmas of the "
@@ -41,6 +41,16 @@ META = {
             "chain lemmas of TotalListP; `eq?` on two pair cells compares contents in marwood — the proof covers both the "
             "same-address and the same-contents hit); length_circular_diverges is now a theorem about the PINNED definition "
             "(Store.Pinned.length), length_circular_self / length_circular_two evaluate the repaired one on the same witness. "
+            "T06.3 for the repaired equal? (dfd9e81: a set of pairs of heap locations whose comparison has begun is threaded "
+            "through equal_seen / compare_pair / compare_vector; the model Store.equalSeen carries it as a list): "
+            "equal_circular_diverges is now a theorem about the PINNED functions (Store.Pinned.equal), "
+            "equal_circular_terminates / equal_circular_terminates_car_vec evaluate the repaired one on cdr-circular lists "
+            "(equal periods and different periods: #t), car-circular pairs, self-containing vectors (#t) and a mismatch (#f); "
+            "equal_total closes it for EVERY store: on every store of the shape of a real heap (Store.Shaped: no heap cell is "
+            "itself a reference, vector slots hold values — no well-formedness needed, a wild reference panics) and any two "
+            "values, fuel >= equalFuel(s) = |cells|^2*(maxVecLen+5)+1 is never exhausted (measure: pairs of locations not yet "
+            "in the set; Lemmas/EqualTotal.lean, core Lean only); equalB_terminates adds equalB_noPanic: ok or err. The driver "
+            "passes max(fuelOf s, equalFuel s). "
             "T06.2 now also covers append, the prelude's length, memq memv member assq assv "
             "assoc, and map / for-each for every callee obeying the explicit law CalleeLaw (on every well-formed store and "
             "valid arguments: no panic, and the store handed back is well formed, only grew, result valid) — the law holds "
@@ -69,14 +79,16 @@ META = {
             "C03 heap model) in a CalleeOk state, with CodeLaws discharged (concreteLaws: CInv of the heap + ExtCodeLaws); "
             "PanicLaws stays a hypothesis there except isLambda_code (concrete_isLambda_code) — vararg_info and the "
             "slot-index expects of CLOSURE/ENTER environment construction are not consequences of CInv. The Num model has genuine panic branches for division by an exact zero "
-            "that the Scheme-level wrappers guard; those guards are now theorems (scmDivide_noPanic, scmIntOp_noPanic). Known findings (not fixed): equal?, display, write on circular data and a circular value as the "
+            "that the Scheme-level wrappers guard; those guards are now theorems (scmDivide_noPanic, scmIntOp_noPanic). Known findings (not fixed): display, write on circular data and a circular value as the "
             "result of an evaluation recurse/loop without bound (stack overflow abort or non-termination); length of a "
             "self-containing VECTOR dies while the `expected pair` error copies its payload out of the heap (same unbounded "
             "Heap::get_as_cell; what is left of the former length finding). Fixed: "
             "7c9bd3f (quoting a procedure/macro/continuation datum through eval panicked), 3d7bbb6 (list? looped on a "
             "circular list), 08d0569 (length never returned on a cdr-circular list: two cursors, same error as for an "
             "improper list), 71c917c ((map f) / (for-each f) without a list looped for ever when f accepts zero arguments: "
-            "at least one list is required, the list-less call is an arity error); the former witnesses are must-pass corpus "
+            "at least one list is required, the list-less call is an arity error), dfd9e81 (equal? on two circular structures "
+            "of the same shape never returned: it now remembers the pairs of locations under comparison and answers #t when "
+            "it meets one again); the former witnesses are must-pass corpus "
             "cases and map / for-each now have a model class (Store.map / Store.forEach through the C14 callee table). Calls whose result would exceed the property's allocation bound (make-vector/make-string/expt "
             "with arguments beyond 10^6) are not generated; circular data into procedures other than the five named by the "
             "property is sampled in the thorough tier as information only (`xcall`).",
@@ -97,7 +109,8 @@ isPairB_noPanic scmPlus_noPanic scmTimes_noPanic scmMinus_noPanic scmUnary_noPan
 scmCmp_noPanic scmPred_noPanic scmMinMax_noPanic scmDivide_noPanic getListTail_terminates circ_wf
 isListTH_circular_self isListTH_circular_two isList_pinned_diverges length_circular_diverges
 length_circular_self length_circular_two length_total length_never_diverges
-equal_circular_diverges render_never_panics renderPinned_panics failed_eval_quiescent builtins_table_size
+equal_circular_diverges equal_circular_terminates equal_circular_terminates_car_vec equal_total equalB_terminates
+circ_shaped render_never_panics renderPinned_panics failed_eval_quiescent builtins_table_size
 builtins_table_windows builtins_table_windows_modelled
 append_noPanic append_wf cons_wf list_wf length_noPanic memq_noPanic memv_noPanic member_noPanic assq_noPanic
 assv_noPanic assoc_noPanic map_noPanic map_wf forEach_noPanic forEach_wf calleeLaw_instances
